@@ -163,7 +163,7 @@ var c03AnalyzeCorpus = []string{
 	"analyze 0 . 0 302e30303031;32",
 	"analyze 1 . 0 313030303030303030303030302e33;313030303030303030303030302e31;35",
 	"analyze 1 . 0 35;313030303030303030303030302e31;313030303030303030303030302e33",
-	// no sample at all: exit status 1, the sentinels ±MaxFloat64 are printed
+	// no sample at all: exit status 1, the start values of Min / Max are printed
 	"analyze 1 . 2 .",
 	// the spec's mean for the F26 witness in the order that agrees with the code (the other order is the known finding)
 	"analyze-spec 302e30303031;32",
